@@ -123,6 +123,11 @@ fn key_of(p: &Position) -> Key {
 }
 
 /// everything the selected properties want to know about one state
+thread_local! {
+    /// a board that "held another position": Kiwipete after a few moves, odd clocks
+    static DIRTY_BUFFER: Board = parse_board("r3k2r/p1ppqpb1/bn2pnp1/3PN3/1p2P3/2N2Q1p/PPPBBPPP/R3K2R b KQkq e3 37 41").unwrap();
+}
+
 pub fn check_state(rp: &Position, board: &Board, played: bool, props: &Props, want_children: bool, special_only: bool) -> (Vec<Divergence>, StateStats, Vec<(Mv, Position, Option<Board>)>, u64) {
     set_case(|| json!({"property": "C01", "case": {"kind": "state", "root": rp.to_fen(), "moves": []}}).to_string());
     let legal = rp.legal_moves();
@@ -143,10 +148,12 @@ pub fn check_state(rp: &Position, board: &Board, played: bool, props: &Props, wa
     }
     let mut children = vec![];
     let mut transitions = 0;
+    if props.c02 && !props.skip_state_oracles {
+        // the checked operations must refuse the near misses in EVERY state, also the last level and
+        // the states reached one ply below a family member (stale check/pin state shows up here)
+        d.extend(c02_refusals(rp, board, &legal, props.full_sweep && want_children, &mut st));
+    }
     if want_children {
-        if props.c02 {
-            d.extend(c02_refusals(rp, board, &legal, props.full_sweep, &mut st));
-        }
         for &m in &legal {
             if special_only && !is_special(rp, m) {
                 continue;
@@ -164,6 +171,23 @@ pub fn check_state(rp: &Position, board: &Board, played: bool, props: &Props, wa
                 board.move_new(real_mv(m))
             };
             // a wrong successor must not cascade: continue from the rebuilt twin when it differs
+            if props.c03 || props.c04 || props.c05 {
+                // the same successor written by `move_into` into a buffer that held another position
+                // (perft-style reuse): it must be indistinguishable from the one `move_new` returns
+                if let Some(c) = &cb {
+                    let mut used = DIRTY_BUFFER.with(|x| *x);
+                    if board.move_into(real_mv(m), &mut used) {
+                        let same = used == *c && used.zobrist() == c.zobrist() && used.half_move_clock() == c.half_move_clock() && used.full_move_clock() == c.full_move_clock() && used.in_check() == c.in_check() && used.legals().eq(c.legals());
+                        if !same {
+                            let what = if used.zobrist() != c.zobrist() { "hash" } else if used.half_move_clock() != c.half_move_clock() || used.full_move_clock() != c.full_move_clock() { "clocks" } else { "board-or-derived-state" };
+                            d.push(Divergence::new(
+                                format!("stale:move_into-a-used-buffer-differs:{what}"),
+                                format!("{} {}: move_into into a buffer that held another position gives a different board than move_new", rp.to_fen(), m.uci()),
+                            ));
+                        }
+                    }
+                }
+            }
             let twin = parse_board(&crp.to_fen()).ok();
             if props.c01 {
                 if let (Some(c), Some(t)) = (&cb, &twin) {
